@@ -675,6 +675,7 @@ func runIn(sc *Scenario, res *core.Result, verbose bool) {
 	}
 	if sc.Decorate {
 		srv.DecorateReader = (&common.Decorator{K: k}).Decorate
+		srv.MsgAcceptFunc = (&common.YieldAccept{K: k}).Accept
 	}
 	if sc.Transport == "tcp" {
 		x.l = n.Listen()
